@@ -300,7 +300,7 @@ PROPS = {
         "rule": ("message sequences of 5-60 LSP notifications/requests over 1-3 documents against a fresh real `glas --stdio` process per sequence (release binary built from /repo): didOpen (project files, nested new file, file outside any project, "
                  "gleam.toml, untitled:/git: URIs, duplicates, re-open after close), didChange (valid; line beyond EOF by one and far; column beyond line by one and far; u32::MAX; inside a surrogate pair; start>end; 2-4 changes with an invalid one among them; "
                  "full replacement; closed or never-opened URI), didClose, didSave, didChangeWatchedFiles (existing, deleted, directory, FIFO, toml), every request kind with valid/invalid positions and ranges, rename with good and bad names. "
-                 "Half the sequences are sent stepwise (a round trip after every message attributes a death), half pipelined. Non-trivial = at least one hostile message; distinct by FNV-1a of the sequence."),
+                 "Half the sequences are sent stepwise (a round trip after every message attributes a death), half pipelined. Non-trivial = at least one hostile message; distinct by FNV-1a of the sequence. One sequence in six uses documents whose paths are nested in one another (a document path that is a proper ancestor of another document's path; an existing directory opened as a document)."),
         "assumptions": [
             "oracle: process alive at the end; every request id answered exactly once (barrier 25 s, then deadlock classification by flat CPU + unanswered probe, else inconclusive); every document's final server text (glas/syntaxTree) lies in the model's acceptable set: "
             "exactly the model text if all edits were valid; after an invalid edit any of forgotten / edit dropped / LSP-spec clamped application",
@@ -319,7 +319,7 @@ PROPS = {
                  "file emptied, file added (roots re-set), dependency edge added/removed (package graph re-set alone), roots+graph replaced - each preceded by ~40 arbitrary queries on the long-lived host. After EVERY step a probe set "
                  "(diagnostics, syntax tree, full highlight per file; hover, goto, references, highlight, completion plain and '.', signature help, prepare-rename, rename at 12 [30] seeded token boundaries per file) is asked of the long-lived host, "
                  "of a fresh host, and of a second fresh host in shuffled order; normal forms must be equal. Every 4th state is additionally re-analysed in a separate process (different HashMap keys) and the per-probe hashes compared. "
-                 "evaluations = probe answers; non-trivial = history with >= 2 changes that completed; distinct by case seed."),
+                 "evaluations = probe answers; non-trivial = history with >= 2 changes that completed; distinct by case seed. One history in eighty starts from a chain of 140-147 modules (more than the parse cache's LRU capacity of 128), each calling the previous one, so syntax trees are evicted and re-parsed between queries. One file edit in four carries several successive texts of the file in a single Change (the last one wins)."),
         "assumptions": [
             "normal form: sequences whose order carries meaning stay sequences; references, highlights, completion items and rename edits are compared as sorted multisets (HashSet iteration order is not part of the answer)",
             "file removal is not part of the statement and is not generated; FileIds are stable across the history and identical in the fresh hosts",
@@ -338,7 +338,7 @@ PROPS = {
         "rule": ("scenarios mirroring the server's ownership: a main thread owns the AnalysisHost, takes snapshots tagged with the version they were taken at, hands them to 1-4 reader threads and applies 1-6 changes with known "
                  "contents (file edits, file added with roots re-set, package-graph-only change); readers sweep 24 seeded queries (hover, goto, references, completion, highlight, diagnostics, signature help, semantic highlight) cyclically "
                  "with seeded sleeps/yields until cancelled. Recorded at the API boundary: (reader, tag, probe, start time, answer | Cancelled | panic). Afterwards every answer is compared with a fresh sequential analysis of the "
-                 "tagged version. evaluations = recorded queries; non-trivial = scenario in which at least one query answered and at least one was cancelled; distinct by the hash of the global completion order of answers (interleaving signature)."),
+                 "tagged version. evaluations = recorded queries; non-trivial = scenario in which at least one query answered and at least one was cancelled; distinct by the hash of the global completion order of answers (interleaving signature). One edited file in three gets a draft text and the final text in one Change."),
         "assumptions": [
             "(a) an answer must equal the answer of its snapshot's own version (else: answer of a later/earlier version, or a mixture); (b) only Err(Cancelled) may surface, never a panic; "
             "(c) promptness restated: no query that STARTS more than 700 ms after the next change was requested may still return an answer, and apply_change never takes longer than a reader's sweep cap (2.5 s); "
@@ -359,7 +359,7 @@ PROPS = {
         "rule": ("races: 1-2 generated documents (8-24 items each, non-ASCII strings/comments), 2-7 line-structure-changing edits, after the open and after every edit a batch of 1-16 requests (hover, definition, references, documentHighlight, "
                  "completion, rename, prepareRename, semanticTokens/full) aimed at valid positions of the version just sent; the whole byte stream is written without waiting, split at seeded points with seeded micro-pauses, "
                  "to the server built with --features verif and GLAS_VERIF_SCHED seeded delays at its yield points. A sequential reference run (plain binary, every request asked and awaited at EVERY version) gives the per-version answers. "
-                 "evaluations = races; non-trivial = race with at least one answered request; distinct by the hash of the server's own message order (responses and notifications)."),
+                 "evaluations = races; non-trivial = race with at least one answered request; distinct by the hash of the server's own message order (responses and notifications). Request kinds raced: hover, definition, references, documentHighlight, completion, rename, prepareRename, signatureHelp (aimed inside argument lists), semanticTokens full and range, glas/syntaxTree."),
         "assumptions": [
             "(a) every request answered exactly once by a 30 s barrier, else deadlock classification (probe unanswered + flat CPU, gdb stacks attached) or inconclusive; (b) a probe after the burst is answered; "
             "(c) a result must equal (normal form) the sequential answer at the version the request was issued against; errors and RequestCancelled are accepted; a result equal to another version's answer or to none is a violation; "
